@@ -17,6 +17,7 @@ C18 ops
   loop      {program:{pre,cond,body,post} (TimeLoop.json), saveStep, tEnd, dt, loadable, fileTime, clock:[bool…], fuel}
             -> {t, ti, tN, nLoops, startPrint, crashed, events:[["ckpt",isPhi,t] | ["collect",t] | ["reduce"] | ["lines",lo,hi]]}
   constants {data:[[key, null | [dep…]]…]}  (file order; null = literal, list = string expression over these keys)
+  constants_rp {data:[[key, null | [dep…], int]…], defaults:[[key,int]…]}  (the parser with the setters of rMin / rMax and the final assignment of rp)
             -> {ok: bool, sweeps: [[keys resolved in sweep 1], …]}
 -/
 import PygyroVerif.DriverUtil
@@ -296,12 +297,34 @@ def handleC18 (op : String) (j : Json) : R Json := do
     let (ok, sw) := go (data.length + 1) data (fun _ => none) []
     let ok2 := (getConstants (data.length + 1) data (fun _ => none)).isSome
     pure <| obj [("ok", Json.bool (ok && ok2)), ("sweeps", Json.arr (sw.map (fun l => Json.arr (l.map Json.str).toArray)).toArray)]
+  | "constants_rp" =>
+    -- literal values are integers (the harness scales dyadic values so that the middle of two of them is an integer);
+    -- an expression is the sum of the constants it names plus an integer
+    let arr ← arrOf (← field j "data")
+    let data ← arr.toList.mapM fun e => do
+      let a ← arrOf e
+      let k ← strOf (a.getD 0 Json.null)
+      let c ← intOf (a.getD 2 Json.null)
+      match a.getD 1 Json.null with
+      | Json.null => pure (k, PVal.lit c)
+      | d => do
+        let deps ← listOf strOf d
+        pure (k, PVal.expr deps (fun env => deps.foldl (fun acc x => acc + (env x).getD 0) c))
+    let mid : Int → Int → Int := fun a b => (a + b) / 2
+    let dflt ← (← arrOf (← field j "defaults")).toList.mapM fun e => do
+      let a ← arrOf e
+      pure ((← strOf (a.getD 0 Json.null)), (← intOf (a.getD 1 Json.null)))
+    let show_ (r : Option (String → Option Int)) : Json := match r with
+      | none => Json.null
+      | some env => obj (data.map (·.1) ++ dflt.map (·.1) ++ ["rp"] |>.eraseDups |>.map fun k => (k, match env k with | some v => jInt v | none => Json.null))
+    pure <| obj [("fixed", show_ (getConstantsRp mid dflt (data.length + 1) data)),
+                 ("old", show_ (getConstantsOld mid dflt (data.length + 1) data))]
   | _ => throw s!"unknown op {op}"
 
 def handle (j : Json) : R Json := do
   let op ← fStr j "op"
   match op with
-  | "roundtrip" | "names" | "constants" | "loop" => handleC18 op j
+  | "roundtrip" | "names" | "constants" | "constants_rp" | "loop" => handleC18 op j
   | _ => handleC17 op j
 
 def main : IO Unit := serve handle
